@@ -285,9 +285,43 @@ theorem survives_counterexample_null_folding :
       = some (.num 1) := by
   constructor <;> decide +kernel
 
-/-- `-(-a)` is printed `--a` (an SQL comment); with a space or parentheses SQLite would read it correctly -/
-theorem sql_print_counterexample_double_minus :
-    sqlPrint .sqlite (staticEval (expand (.un .Neg (.un .Neg (.col 0))))) = some ['-', '-', 'a'] := by decide +kernel
+/-! ### unary minus next to a minus (repaired in /repo by 8bc968c; the guard is extracted as `Gen.SqlOps.minusGuard`) -/
+
+/-- the text assembled by `translate_operator` never gets `--` from appending an operand: with the guard, an operand that starts
+with `-` is parenthesised whenever the text before it ends with `-` -/
+theorem append_operand_no_double_minus (acc arg : List Char) (hg : Gen.SqlOps.minusGuard = true)
+    (h1 : acc.getLast? = some '-') (h2 : arg.head? = some '-') :
+    appendOperand acc arg = acc ++ ['('] ++ arg ++ [')'] := by
+  simp [appendOperand, hg, h1, h2]
+
+/-- `-(-a)`, `-(-(-a))`: printed with parentheses, and SQLite (whose lexer treats `--` as a comment, as `sqlLex` does)
+computes the documented value -/
+theorem sql_print_double_minus :
+    sqlPrint .sqlite (staticEval (expand (.un .Neg (.un .Neg (.col 0))))) = some ['-', '(', '-', 'a', ')'] ∧
+    sqlPrint .generic (staticEval (expand (.un .Neg (.un .Neg (.un .Neg (.col 0))))))
+      = some ['-', '(', '-', '(', '-', 'a', ')', ')'] := by
+  constructor <;> decide +kernel
+
+theorem survives_double_minus :
+    evalDoc (envV [some 5]) (.un .Neg (.un .Neg (.col 0))) = some (.num 5) ∧
+    sqlValue .sqlite [some 5] (.un .Neg (.un .Neg (.col 0))) = some (.num 5) ∧
+    sqlValue .generic [none] (.un .Neg (.un .Neg (.un .Neg (.col 0)))) = some .null := by
+  refine ⟨?_, ?_, ?_⟩ <;> decide +kernel
+
+/-- `a - -5` keeps its space and needs no parentheses -/
+theorem sql_print_minus_negative_literal :
+    sqlPrint .sqlite (staticEval (expand (.bin .Sub (.col 0) (.un .Neg (.lit (.int 5)))))) = some ['a', ' ', '-', ' ', '-', '5'] := by
+  decide +kernel
+
+/-- the reference lexer does read `--` as a comment (what the guard protects against) -/
+theorem sql_lex_comment : sqlLex ['-', '-', 'a'] = some [] ∧ sqlParse ['-', '-', 'a'] = none := by
+  constructor <;> decide +kernel
+
+/-- in the abstract printer the operand of unary minus that is itself a unary minus is now parenthesised, and the triple is
+not among the excluded ones: `sql_print_parse_partial` covers `-(-a)` at any depth -/
+theorem neg_under_neg_parenthesised :
+    npEmit (.u .neg) false (.u .neg) = true ∧ excluded (.u .neg) false (.u .neg) = false := by decide
+example : agree npEmit npFix (.un .neg (.un .neg (.un .neg (.leaf (.col 0)))) : ETree) := agree_of_agreeB _ (by decide)
 
 -- positive instances (the pipeline is not vacuous): precedence, pow swap, real division, coalesce, case default
 example : sqlValue .sqlite [some 7, some 2, some 3] (.bin .Sub (.col 0) (.bin .Sub (.col 1) (.col 2))) = some (.num 8) := by decide +kernel
